@@ -4,6 +4,8 @@ use crate::{Report, RunCtx, Tier, Violation, out, run_worker};
 use serde_json::{Value, json};
 use std::collections::HashMap;
 
+pub mod c08;
+pub mod c08_solve;
 pub mod c09;
 pub mod c09_real;
 pub mod c13;
@@ -25,6 +27,7 @@ pub struct Check {
 
 pub fn registry() -> Vec<Check> {
     vec![
+        Check { id: "C08", run: c08::run, replay: c08::replay, worker: None },
         Check { id: "C09", run: c09::run, replay: c09::replay, worker: None },
         Check { id: "C13", run: c13::run, replay: c13::replay, worker: None },
         Check { id: "C14", run: c14::run, replay: c14::replay, worker: None },
